@@ -213,7 +213,8 @@ def fmt_pair_indices(ctx):
         return False, "get_removed_pos does not push exactly one (position, *pair index) per marker"
     # format indexes the same list it iterates
     f = P.fn("code::formatter::format")
-    idx = [n for n in T.nodes(f["tree"], "index") if T.render(n["base"]) == "removed_pos"]
+    rp = f["params"][1]["pat"].get("id") if len(f["params"]) > 1 else None       # format(content, removed_pos, ..)
+    idx = [n for n in T.nodes(f["tree"], "index") if rp is not None and T.local_of(T.peel_ref(n["base"])) == rp]
     if len(idx) != 1:
         return False, "format() indexes removed_pos %d times" % len(idx)
     return True, "pair indices valid in merge_markers; one removed position per marker, same order"
@@ -255,7 +256,7 @@ def mr_cursor_shape(ctx):
 def elr_panic_guard(ctx):
     P = ctx.lib
     b = P.fn("EmptyLineRemover::format")
-    pid = [p["pat"]["id"] for p in b["params"] if p["pat"]["p"] == "bind" and p["pat"]["name"] == "byte_pos"]
+    pid = [p["pat"]["id"] for p in b["params"][2:3] if p["pat"]["p"] == "bind"]      # format(&self, content, byte_pos)
     for n, parents in T.walk(b["tree"]):
         if n.get("k") == "call" and (T.cname(n) or "").startswith("core::panicking::"):
             ifs = [p for p in parents if p.get("k") == "if"]
